@@ -138,4 +138,5 @@ class Ctx(object):
     def machinery(self, msg):
         print('[%s] MACHINERY ERROR: %s' % (self.pid, msg), file=sys.stderr, flush=True)
         shutil.rmtree(self.workdir, ignore_errors=True)
-        sys.exit(2)
+        # a violation reported before the machinery gave up (VIOLATION line and replay file are out) stays the verdict
+        sys.exit(1 if self.violations else 2)
